@@ -1,0 +1,29 @@
+//go:build verif
+// +build verif
+
+package fileseq
+
+// Thin exported wrappers around unexported helpers, for the verification
+// harness in /verif. Compiled only with -tags verif.
+
+func verifPadder(style PadStyle) paddingMapper {
+	p, ok := padders[style]
+	if !ok {
+		p = defaultPadding
+	}
+	return p
+}
+
+func VerifPaddingChars(style PadStyle, n int) string {
+	return verifPadder(style).PaddingChars(n)
+}
+
+func VerifPaddingCharsSize(style PadStyle, chars string) int {
+	return verifPadder(style).PaddingCharsSize(chars)
+}
+
+func VerifZfillInt(v, z int) string { return zfillInt(v, z) }
+
+func VerifZfillString(s string, z int) string { return zfillString(s, z) }
+
+func VerifAllChars() []string { return defaultPadding.AllChars() }
